@@ -387,16 +387,16 @@ def gen_doc(rng, nonascii=False, allow_dups=True, malformed=False):
                         q2.append((k, v))
                 p["q"] = q2
     # make references mostly resolvable so that the identity branch is reached
-    if ps and rs and rng.random() < 0.8:
+    if ps and rs and rng.random() < 0.85:
         for r in rs:
-            if rng.random() < 0.7:
-                r["privileges"].append(rng.choice(ps)["name"])
-    if rs and ras and rng.random() < 0.8:
+            if rng.random() < 0.85:
+                r["privileges"].insert(rng.randrange(len(r["privileges"]) + 1), rng.choice(ps)["name"])
+    if rs and ras and rng.random() < 0.85:
         for a in ras:
-            if rng.random() < 0.7:
+            if rng.random() < 0.85:
                 a["role"] = rng.choice(rs)["name"]
-            if ids and rng.random() < 0.7:
-                a["identities"].append(rng.choice(ids)["name"])
+            if ids and rng.random() < 0.85:
+                a["identities"].insert(rng.randrange(len(a["identities"]) + 1), rng.choice(ids)["name"])
     rules = {"privileges": ps, "roles": rs, "identities": ids, "roleAssignments": ras}
     mode = rng.choice(["enforce", "enforce", "enforce", "audit", "audit", "disabled"])
     default = rng.choice(["allow", "deny"])
@@ -414,13 +414,26 @@ def gen_doc(rng, nonascii=False, allow_dups=True, malformed=False):
     return doc
 
 
+def asciiize(t):
+    """the ASCII request text that a rule string can match: KELVIN SIGN lower-cases to 'k'"""
+    t = t.replace(KELVIN, "k")
+    return t if t.isascii() else None
+
+
 def gen_url_for(rng, doc):
     """(url text) aimed at the document's privileges: often a match, often a near miss"""
     s = sections(doc)
     ps = s[0] if s else []
-    base = rng.choice(ps) if ps and rng.random() < 0.8 else None
-    if base is not None and base["path"].isascii():
-        path = base["path"]
+    base = rng.choice(ps) if ps and rng.random() < 0.85 else None
+    if base is not None and rng.random() < 0.6:
+        # prefer a privilege that some assigned role lists
+        assigned_roles = {a["role"] for a in s[3]}
+        listed = {n for r in s[1] if r["name"] in assigned_roles for n in r["privileges"]}
+        cand = [p for p in ps if p["name"] in listed]
+        if cand:
+            base = rng.choice(cand)
+    if base is not None and asciiize(base["path"]) is not None:
+        path = asciiize(base["path"])
         r = rng.random()
         if r < 0.35:
             path += rng.choice(["", "/", "/x", "x", "/" + rng.choice(PATH_SEGS)])
@@ -437,8 +450,9 @@ def gen_url_for(rng, doc):
     pairs = []
     if base is not None and base.get("q"):
         for k, v in base["q"]:
-            if not (k.isascii() and v.isascii()):
-                k, v = ("k", "k") if rng.random() < 0.7 else (rng.choice(QKEYS), rng.choice(QVALS))
+            if asciiize(k) is None or asciiize(v) is None:
+                k, v = (rng.choice(QKEYS), rng.choice(QVALS))
+            k, v = asciiize(k), asciiize(v)
             r = rng.random()
             if r < 0.12:
                 continue                          # drop a required parameter
@@ -501,8 +515,12 @@ def gen_claims_for(rng, doc, elevated=None):
     c = {"u": rng.choice(USERS), "g": [rng.choice(GROUPS) for _ in range(rng.choice([0, 1, 2, 3]))],
          "p": rng.choice(PROCS).encode(), "e": rng.choice(EXES).encode(),
          "el": rng.random() < 0.5 if elevated is None else elevated}
-    if ids and rng.random() < 0.85:
+    if ids and rng.random() < 0.9:
         i = rng.choice(ids)
+        assigned = {n for a in s[3] for n in a["identities"]}
+        cand = [x for x in ids if x["name"] in assigned]
+        if cand and rng.random() < 0.8:
+            i = rng.choice(cand)
         if i["userName"] is not None and rng.random() < 0.85:
             c["u"] = i["userName"]
         if i["groupName"] is not None and rng.random() < 0.85:
